@@ -1,4 +1,25 @@
 //! marketsim — the pure model (`gmsol-model`) under a simulated clock, failing storage and a token ledger.
+//!
+//! Layout
+//! * `cfg`      — serde types of a run: `Cfg` (swarm configuration incl. `MarketCfg`), `Step`, `ProbeKind`. 128-bit
+//!                values are `num::U` / `num::I` (decimal strings in JSON).
+//! * `gen`      — `generate(seed, run, tier, focus)`: all random draws (streams `config`, `plan`, `prices`, `faults`),
+//!                sub-batches by `run % 8` (plain / faults / misconfig), op-mix per focus, `simplify_*` for the shrinker.
+//! * `fault`    — per-thread fault controller "fail the k-th fallible call of this operation" and the trait-contract
+//!                rule for `*_mut` accessors.
+//! * `world`    — `SimPool`, `MarketState`, `SimMarket` (all market traits), `SimPosition` + `PosOps` (position
+//!                traits), `Ledger`, `World` (parties, prices, clock) and `World::exec(step) -> StepOutcome`.
+//! * `scenario` — `MarketHistory`: executes a plan, calls every oracle module after every step, runs probes.
+//! * `refmath`  — independent big-integer reference arithmetic.
+//! * `c02` … `c06` — one module per oracle family (`after_step(&World, &StepOutcome, &mut Obs)` monitors and
+//!                `probe_*` fork-style probes).
+//!
+//! Adding stage-2 oracles (C07–C14, C09, position side of C03): write `cNN::after_step` against `StepOutcome`
+//! (it carries the pre-transaction snapshot `before` = market state + all positions + LP balances, the reports of
+//! the pre-settlement and of the action, inner swap reports of decreases, insufficient-funding callbacks, the token
+//! flows of the step, the position slot and its state before the step) and the post-state `World` (market,
+//! positions, `ledger` with per-token totals by category), call it from `scenario.rs`, add probe kinds to
+//! `cfg::ProbeKind` + `gen` weights, and register the property in `PROPERTIES` / `registry`.
 pub mod c02;
 pub mod c03;
 pub mod c04;
